@@ -1,22 +1,15 @@
 -- FAMILY: C35
 import Driver.Util
 import IQE.Engine.FrontDoor
-import IQE.Gen.FrontDoor
 open Lean IQE.Engine IQE.Engine.FrontDoor
 namespace Driver.C35
 
-def modeOfGen : IQE.Gen.FrontDoor.DistMode → Mode
-  | .Auto => .auto
-  | .Force => .force
-  | .Off => .off
-
-/-- `DistMode::parse(query)`: first `distributed=` pair, value through the GENERATED `parse_value`; absent ⇒ Auto -/
+/-- `DistMode::parse(query)`: first `distributed=` pair, value through `parseModeHttp` (proved equal to the
+    translator-generated `parse_value` in IQE.Props.C35); absent ⇒ Auto -/
 def parseModeQ (q : String) : Option Mode :=
   match firstValue "distributed" q with
   | none => some .auto
-  | some v => match IQE.Gen.FrontDoor.parse_value v with
-    | .ok m => some (modeOfGen m)
-    | .error _ => none
+  | some v => parseModeHttp v
 
 /-- `ResultFormat::parse(query)`: absent ⇒ Arrow -/
 def parseFormatQ (q : String) : Option FrontDoor.Format :=
